@@ -27,8 +27,9 @@ Trace == ndJsonDeserialize(IOEnv.TRACE)
 
 VARIABLES l, sigs, cfg, be, ok,
           mode,     \* "exact" | "partial" (indexes incomplete after a crash inside a rebuild)
-          alt       \* in-flight mutation at the crash: [kind, post] or NoAlt
-vars == <<l, sigs, cfg, be, ok, mode, alt>>
+          alt,      \* in-flight mutation at the crash: [kind, post] or NoAlt
+          meta      \* database metadata (embedded store): key -> value
+vars == <<l, sigs, cfg, be, ok, mode, alt, meta>>
 
 NoAlt == [kind |-> "none"]
 
@@ -39,11 +40,12 @@ Judge(b) == ok' = b /\ Mark(b)
 Inflight(ev) == "inflight" \in DOMAIN ev /\ ev.inflight
 
 Init == /\ l = 1 /\ sigs = EmptyMap /\ cfg = [theta |-> 0, tol |-> 0] /\ be = "pebble"
-        /\ ok = TRUE /\ mode = "exact" /\ alt = NoAlt /\ TLCSet(1, 0)
+        /\ ok = TRUE /\ mode = "exact" /\ alt = NoAlt /\ meta = <<>> /\ TLCSet(1, 0)
 
 TReset == /\ IsEv("reset")
           /\ sigs' = EmptyMap /\ cfg' = [theta |-> e.theta, tol |-> e.tol] /\ be' = e.be
           /\ ok' = TRUE /\ mode' = "exact" /\ alt' = NoAlt /\ l' = l + 1
+          /\ meta' = IF "meta0" \in DOMAIN e THEN e.meta0 ELSE <<>>     \* what a freshly opened database holds
 
 MutEvs == {"add", "addbatch", "delete", "markfp", "rebuild", "reopen", "compact", "checkpoint"}
 
@@ -56,7 +58,7 @@ TMut == /\ ok /\ l <= Len(Trace) /\ e.ev \in MutEvs
            ELSE /\ Judge(e.err = f.err /\ f.good)
                 /\ sigs' = f.next /\ alt' = NoAlt
                 /\ mode' = IF e.ev = "rebuild" /\ ~e.err THEN "exact" ELSE mode
-        /\ l' = l + 1 /\ UNCHANGED <<cfg, be>>
+        /\ l' = l + 1 /\ UNCHANGED <<cfg, be, meta>>
 
 \* state listing observed after crash + reset-to-synced + reopen (C07)
 TRecovered ==
@@ -68,11 +70,11 @@ TRecovered ==
         /\ sigs' = IF isPre \/ ~isPost THEN sigs ELSE alt.post
         /\ mode' = IF alt # NoAlt /\ alt.kind = "rebuild" THEN "partial" ELSE mode
         /\ alt' = NoAlt
-  /\ l' = l + 1 /\ UNCHANGED <<cfg, be>>
+  /\ l' = l + 1 /\ UNCHANGED <<cfg, be, meta>>
 
 TSetCfg == /\ IsEv("setcfg")
            /\ cfg' = [theta |-> e.theta, tol |-> e.tol]
-           /\ ok' = TRUE /\ l' = l + 1 /\ UNCHANGED <<sigs, be, mode, alt>>
+           /\ ok' = TRUE /\ l' = l + 1 /\ UNCHANGED <<sigs, be, mode, alt, meta>>
 
 \* migration of a JSON file (C18).  sigs = the signatures the file encodes, in
 \* file order; complete = the bytes handed to the store are the whole well-formed
@@ -100,11 +102,43 @@ TMigrate ==
         ELSE LET k == FindPrefix(sigs, q, 0, seen)
              IN /\ Judge(~e.complete /\ NoDup(e.post) /\ k >= 0)
                 /\ sigs' = IF k < 0 THEN sigs ELSE UpsertAll(sigs, SubSeq(q, 1, k))
-  /\ l' = l + 1 /\ UNCHANGED <<cfg, be, mode, alt>>
+  /\ l' = l + 1 /\ UNCHANGED <<cfg, be, mode, alt, meta>>
+
+\* ---------------- metadata (embedded store) ----------------
+\* A separate key space: metadata calls never touch the signature set (sigs is UNCHANGED by
+\* construction of these actions, and every signature query that follows is judged against it),
+\* and signature mutations never touch the metadata.  Time stamps are only required to exist.
+\* InitializeMetadata(version, description) as the code does it: description (if non-empty),
+\* created_at (kept if present), last_updated_at, and the data-format version of the binary under
+\* the key "version" — the caller's version argument is written first and overwritten by it.
+TimeKeys == {"created_at", "last_updated_at"}
+MSet(m, k, v) == [x \in DOMAIN m \cup {k} |-> IF x = k THEN v ELSE m[x]]
+MDel(m, k) == [x \in DOMAIN m \ {k} |-> m[x]]
+MetaMut(name, good, next) == /\ IsEv(name) /\ Judge(good) /\ meta' = next /\ l' = l + 1
+                             /\ UNCHANGED <<sigs, cfg, be, mode, alt>>
+TSetMeta == MetaMut("setmeta", ~e.err, MSet(meta, e.key, e.value))
+TDelMeta == MetaMut("delmeta", ~e.err, MDel(meta, e.key))
+TInitMeta ==
+  MetaMut("initmeta", ~e.err,
+          LET m1 == IF e.description # "" THEN MSet(meta, "description", e.description) ELSE meta
+              m2 == MSet(MSet(m1, "version", e.dbver), "last_updated_at", "t")
+          IN IF "created_at" \in DOMAIN m2 THEN m2 ELSE MSet(m2, "created_at", "t"))
 
 \* ---------------- queries ----------------
 Query(name, good) == /\ IsEv(name) /\ Judge(good) /\ l' = l + 1
-                     /\ UNCHANGED <<sigs, cfg, be, mode, alt>>
+                     /\ UNCHANGED <<sigs, cfg, be, mode, alt, meta>>
+Standard == {"version", "description", "created_at", "last_updated_at", "source_hash"}
+TGetMeta == Query("getmeta", /\ e.found = (e.key \in DOMAIN meta)
+                             /\ (e.found /\ e.key \notin TimeKeys) => e.value = meta[e.key])
+TAllMeta == Query("allmeta",
+                  /\ ~e.err
+                  /\ e.count = Cardinality(DOMAIN sigs)
+                  /\ DOMAIN e.custom = DOMAIN meta \ Standard
+                  /\ \A k \in DOMAIN e.custom : e.custom[k] = meta[k]
+                  /\ e.version = (IF "version" \in DOMAIN meta THEN meta["version"] ELSE "")
+                  /\ e.description = (IF "description" \in DOMAIN meta THEN meta["description"] ELSE "")
+                  /\ e.has_created = ("created_at" \in DOMAIN meta)
+                  /\ e.has_updated = ("last_updated_at" \in DOMAIN meta))
 X == mode = "exact"
 
 TGet     == Query("get", ~e.err /\ GetOK(e.res, sigs, e.id))
@@ -126,7 +160,7 @@ TExport  == Query("export", ~e.err /\ ExportOK(e.res, sigs))
 
 Next == \/ TReset \/ TMut \/ TRecovered \/ TSetCfg \/ TMigrate
         \/ TGet \/ TByTopo \/ TEntropy \/ TCand \/ TScan \/ TExact \/ TList \/ TCount
-        \/ TStats \/ TExport
+        \/ TStats \/ TExport \/ TSetMeta \/ TDelMeta \/ TInitMeta \/ TGetMeta \/ TAllMeta
 
 Spec == Init /\ [][Next]_vars
 
